@@ -2219,6 +2219,22 @@ static void EnterLocSymbol(PSymbolEntry Neu) {
     }
     EnterStruct.MayChange = EnterStruct.DoCross = FALSE;
     TreeRoot                                    = &FirstLocSymbol->Tree;
+
+    /* likewise for a new macro-local label that hides an ordinary symbol
+       which the macro body has possibly referenced before */
+
+    if (!Repass && !SearchTree(TreeRoot, Neu->Tree.Name, MomLocHandle)) {
+        PSaveSection pRun    = SectionStack;
+        LongInt      Outer   = MomSectionHandle;
+        PSymbolEntry pHidden = (PSymbolEntry)SearchTree((PTree)FirstSymbol, Neu->Tree.Name, Outer);
+
+        for (; !pHidden && pRun; pRun = pRun->Next) {
+            pHidden = (PSymbolEntry)SearchTree((PTree)FirstSymbol, Neu->Tree.Name, pRun->Handle);
+        }
+        if (pHidden && pHidden->Used) {
+            Repass = True;
+        }
+    }
     EnterTree(&TreeRoot, (&Neu->Tree), SymbolAdder, &EnterStruct);
     FirstLocSymbol = (PSymbolEntry)TreeRoot;
 }
@@ -2305,6 +2321,30 @@ static void EnterSymbol(PSymbolEntry Neu, Boolean MayChange, LongInt ResHandle) 
                 Prev->Next = Lauf->Next;
             }
             free(Lauf);
+        }
+    }
+
+    /* A symbol that is new in its section hides the same name in the enclosing
+       sections.  If one of those was already referenced in this pass, the
+       reference may have come from inside this section and picked the wrong
+       symbol: the correct one is only found in another pass. */
+
+    if ((Neu->Tree.Attribute != -1) && !Repass
+        && !SearchTree(TreeRoot, Neu->Tree.Name, Neu->Tree.Attribute)) {
+        LongInt Outer = Neu->Tree.Attribute;
+
+        while ((Outer != -1) && !Repass) {
+            PCToken      pSect = FirstSection;
+            PSymbolEntry pHidden;
+
+            for (; pSect && (Outer > 0); Outer--) {
+                pSect = pSect->Next;
+            }
+            Outer   = pSect ? pSect->Parent : -1;
+            pHidden = (PSymbolEntry)SearchTree(TreeRoot, Neu->Tree.Name, Outer);
+            if (pHidden && pHidden->Used) {
+                Repass = True;
+            }
         }
     }
     EnterTree(&TreeRoot, &(Neu->Tree), SymbolAdder, &EnterStruct);
